@@ -457,6 +457,7 @@ fn boundary_nonnull(dt: &DataType, depth: u32) -> Vec<Val> {
             (0, 0), (1, 0), (0, 1), (-1, -1), (1, -1), (-1, 1), (0, 999), (0, 1000), (0, -1), (0, -999), (0, -1000),
             (0, 86_400_000), (5, 3_723_004), (-5, -3_723_004), (0, 60_000), (0, 3_600_000), (0, 3_661_001),
             (i32::MAX, i32::MAX), (i32::MIN, i32::MIN), (0, i32::MIN), (i32::MIN, 0), (0, i32::MAX), (i32::MAX, 0),
+            (0, 61_500), (0, -61_500), (0, 3_599_999),
         ]
         .into_iter()
         .map(|(d, m)| Val::IntervalDT(d, m))
@@ -467,6 +468,8 @@ fn boundary_nonnull(dt: &DataType, depth: u32) -> Vec<Val> {
             (13, -4, 3_723_000_000_005), (-13, 4, -3_723_000_000_005), (-1, -1, -1), (1, 1, -1), (12, 0, 0),
             (0, 0, 86_400_000_000_000), (i32::MAX, i32::MAX, i64::MAX), (i32::MIN, i32::MIN, i64::MIN),
             (0, 0, i64::MAX), (0, 0, i64::MIN), (0, 0, i64::MIN + 1), (i32::MIN, 0, 0), (0, i32::MIN, 0),
+            // sub-hour values with both a minutes and a (fractional) seconds part
+            (0, 0, 61_500_000_000), (0, 0, -61_500_000_000), (0, 0, 125_000_000_001), (0, 0, 3_599_999_999_999),
         ]
         .into_iter()
         .map(|(m, d, n)| Val::IntervalMDN(m, d, n))
